@@ -153,7 +153,7 @@ func runC17(c *Ctx) {
 			return
 		}
 		capd := func(x *E) *E {
-			return u.ITE(u.ToBool(u.Lt(u.Int(maxLen), u.Len(x))), u.mk("slice", "", strT, x, nil, u.Int(maxLen), nil), x)
+			return u.ITE(u.ToBool(u.Lt(u.Int(maxLen), u.Len(x))), u.Slice(x, nil, u.Int(maxLen), nil, strT), x)
 		}
 		url, src := capd(ps[0]), capd(ps[1])
 		host := u.Call(calleeName(ext), strT, url)
@@ -275,7 +275,12 @@ func runC17(c *Ctx) {
 		for _, x := range u.Collect(g.RetExpr(s, 0), func(x *E) bool { return x.Op == "call" && strings.HasPrefix(x.Aux, "strings.Index") }) {
 			n++
 			hay := x.Args[0]
-			ok := hay == url || (hay.Op == "slice" && hay.Args[0] == url && hay.Args[2] == nil)
+			ok := true
+			for leaf := range u.Leaves(hay) {
+				if !(leaf == url || (leaf.Op == "slice" && leaf.Args[0] == url && leaf.Args[2] == nil)) {
+					ok = false
+				}
+			}
 			c.Check(ok, "C17.R7", shortFn(ext)+": "+strings.TrimPrefix(x.Aux, "strings.")+" searches the whole URL / the suffix after the scheme", ext.Pos(), "haystack is url or url[i:]",
 				"a delimiter is searched in "+clip(u.Show(hay), 80)+": a bounded prefix misses the \"//\" of a long scheme (chrome-extension://...) and the hostname is wrong")
 		}
@@ -309,7 +314,7 @@ func runC17(c *Ctx) {
 		short := u.ToBool(u.Lt(i, u.Int(0)))
 		nodot := u.bdd.Not(u.ToBool(u.Eq(at(i), dot)))
 		wantEmpty := u.bdd.Or(empty, u.bdd.Or(lead, u.bdd.Or(trail, u.bdd.Or(short, nodot))))
-		wantVal := u.mk("slice", "", strT, h, u.Bin(token.ADD, u.Int(1), u.Call("strings.LastIndex", intT, u.mk("slice", "", strT, h, nil, i, nil), u.Str(".")), intT), nil, nil)
+		wantVal := u.Slice(h, u.Bin(token.ADD, u.Int(1), u.LibCall("strings.LastIndex", intT, u.Slice(h, nil, i, nil, strT), u.Str(".")), intT), nil, nil, strT)
 		gotEmpty := False
 		bad := ""
 		for _, r := range s.Rets {
